@@ -207,6 +207,9 @@ func c12R4(c *Ctx) {
 			if strings.HasPrefix(n, "gemmill/modules/go-log.") || strings.HasPrefix(n, "go.uber.org/zap.") {
 				return ""
 			}
+			if callee := ci.Common().StaticCallee(); callee != nil && dtable.IsPurePredicate(callee) {
+				return "" // an extracted condition: evaluated by the table interpreter, not an effect
+			}
 			return "EFFECT"
 		}
 		return ""
